@@ -272,7 +272,8 @@ class Ser:
 
         attrs = o.attributes
         if isinstance(o, UnregisteredOp):
-            name = o.op_name.data
+            # (the bare class `builtin.unregistered` without `op_name__` can come out of the parser)
+            name = o.op_name.data if "op_name__" in attrs else o.name
             attrs = {k: a for k, a in attrs.items() if k != "op_name__"}
         else:
             name = o.name
